@@ -15,7 +15,8 @@ Inductive op :=
 | OpClearSyl
 | OpJumpNext | OpJumpPrev | OpJumpFirst | OpJumpLast
 | OpLearn (k t : list N)
-| OpUnlearn (k t : list N).
+| OpUnlearn (k t : list N)
+| OpLayout (L : N).
 
 Section Run.
 Context {D SY : Type} (dops : dict_ops D) (sops : syl_ops SY) (conv : conv_fn D).
@@ -41,6 +42,7 @@ Definition step (e : editor D SY) (o : op) : outcome (editor D SY) :=
   | OpJumpLast => fst_ok (ed_jump_last dops e)
   | OpLearn k t => fst_ok (ed_learn_c dops sops e k t)
   | OpUnlearn k t => ed_unlearn_c dops sops e k t
+  | OpLayout L => ed_set_layout dops sops e L
   end.
 
 Fixpoint run (e : editor D SY) (ops : list op) : outcome (editor D SY) :=
